@@ -101,6 +101,7 @@ theorem erasedInv_ret {s s' : State} {a r : Nat} (h : ErasedInv s) (hs : retStep
 theorem erasedInv_reachable {s : State} (hr : Reachable s) : ErasedInv s := by
   induction hr with
   | init nq ng max => exact erasedInv_init nq ng max
+  | initP ps ng max => exact erasedInv_initP ps ng max
   | step l hprev hstep ih =>
     obtain ⟨hw, hf⟩ := fullInv_reachable hprev
     cases l with
